@@ -149,10 +149,18 @@ class SubTissues:
     def evaluate(self, d):
         import forsys.virtual_edges as ve
         sub = T.sub_tissue(self.at, d["cells"])
-        if self.base == "lens" and d["k"] == 0:
-            return {"key": "lens-k0|%s" % ",".join(d["cells"]), "viol": [], "tags": ["lens_k0_outside"], "cls": "lens-k0", "outdom": True}
+        ks = T.sample_counts(sub, d["k"])
+        ends = {}
+        for ii, it in enumerate(sub["I"]):
+            if ks[ii] == 0:
+                ends.setdefault(frozenset((it["a"], it["b"])), []).append(ii)
+        if any(len(x) > 1 for x in ends.values()):
+            # two two-point interfaces between the same pair of junctions are the same pair of vertices: not a planar mesh
+            return {"key": "coincident|%s|%s" % (",".join(d["cells"]), d["k"]), "viol": [], "tags": ["lens_k0_outside"], "cls": "lens-k0", "outdom": True}
         v, e, c, info = T.realise(sub, k=d["k"])
         tags = []
+        if len(set(ks)) > 1:
+            tags.append("mixed_point_counts")
         if d["rs"] is not None:
             with fsutil.quiet():
                 v, e, c, _ = ve.generate_mesh(v, e, c, ne=d["rs"], replace_short_edges=False)
@@ -176,7 +184,7 @@ class SubTissues:
             if len(be.own_cells) == 2:
                 phys.append([sorted(inv_cell.get(x, "?") for x in be.own_cells), ends])
         phys.sort()
-        key = "%s|%s|%d|%s" % (self.base, ",".join(d["cells"]), d["k"], d["rs"])
+        key = "%s|%s|%s|%s" % (self.base, ",".join(d["cells"]), d["k"], d["rs"])
         cls = "%d/%d/%d/%d/%s/%s" % (len(d["cells"]), facts["n_if"], facts["n_int"], facts["junctions"], d["k"], d["rs"])
         return {"key": key, "viol": viol, "known": known, "tags": tags, "cls": cls, "nontrivial": facts["junctions"] > 0, "obs": {"phys": phys}}
 
@@ -241,19 +249,19 @@ class ParserMeshes:
 
 def build(tier, seed):
     if tier == "quick":
-        return [SubTissues("v5x4", [0, 1, 2, 5], [2, 6]),
+        return [SubTissues("v5x4", [0, 1, 2, 5, ["mod3", 0, 2, 1]], [2, 6]),
                 SubTissues("v5x5", [0, 2], [3]),
                 SubTissues("square3x3", [0, 2], [2]),
-                SubTissues("lens", [1, 2, 4], [2, 3]),
+                SubTissues("lens", [1, 2, 4, ["mod3", 0, 2, 1], ["mod3", 3, 0, 0], ["mod3", 1, 0, 3]], [2, 3]),
                 SubTissues("v4x4p%d" % (seed + 1), [1, 3], [3]),
                 ParserMeshes([["se", "v5x4", None, 2], ["se", "v5x5", None, 0], ["wkt", "v5x4", None, 1], ["tess", 5, 4, seed + 1, 40.0],
                               ["raster", [5, 4, 15, 0, 40], True], ["se_file", REPO + "/tests/data/furrow_gauss_velocity/stage0.dmp"]], [3, 6])]
-    return [SubTissues("v5x5", [0, 1, 2, 5, 15], [2, 6]),
+    return [SubTissues("v5x5", [0, 1, 2, 5, 15, ["mod3", 0, 2, 1], ["mod3", 16, 0, 3]], [2, 6]),
             SubTissues("v6x5", [0, 2, 5], [2, 6]),
             SubTissues("brick4x3", [0, 1, 2], [2]),
-            SubTissues("square3x3", [0, 1, 2, 5], [2, 6]),
+            SubTissues("square3x3", [0, 1, 2, 5, ["mod3", 0, 2, 1]], [2, 6]),
             SubTissues("hex3x3", [0, 1, 3], [2, 6]),
-            SubTissues("lens", [1, 2, 3, 4, 7], [2, 3, 6]),
+            SubTissues("lens", [1, 2, 3, 4, 7, ["mod3", 0, 2, 1], ["mod3", 3, 0, 0], ["mod3", 1, 0, 3], ["mod3", 0, 0, 5]], [2, 3, 6]),
             SubTissues("v5x4p%d" % (seed + 1), [0, 1, 2, 5], [2, 6]),
             ParserMeshes([["se", "v5x4", None, 2], ["se", "v5x5", None, 0], ["se", "v6x5", None, 5], ["wkt", "v5x4", None, 1], ["wkt", "v5x5", None, 3],
                           ["tess", 5, 4, seed + 1, 40.0], ["tess", 7, 6, seed + 2, 1000.0], ["raster", [5, 4, 15, 0, 40], True], ["raster", [6, 5, 15, 1, 44], True],
